@@ -8,10 +8,16 @@ INSTRUMENTED_PKGS = [
 ]
 COMMONS_INSTRUMENTED = ["csync", "semaphore", "cchan", "rollback"]
 
+FLOW = {"name": "flow", "pkg": "pkg/verifflow", "harness": "flow", "run": "^TestVerifFlow$", "instrument": True,
+        "shards": 16, "shards_thorough": 16}
+
 CHECKS = {
+    "C01": {"parts": [FLOW]},
+    "C04": {"parts": [FLOW]},
+    "C05": {"parts": [FLOW]},
     "SMOKE": {
         "parts": [
-            {"name": "smoke", "pkg": "pkg/verifflow", "harness": "flow", "run": "^TestVerifFlowSmoke$", "instrument": True},
+            {"name": "smoke", "pkg": "pkg/verifflow", "harness": "flow", "run": "^TestVerifFlow$", "instrument": True, "shards": 4},
         ],
     },
     "C20": {
